@@ -1,2 +1,81 @@
+import Rink.Lemmas.Dim
 import Rink.Model.Eval
-/-! property theorems: under construction -/
+/-!
+# C03 — Conversions are exact and refuse non-conformable targets
+
+`convert v t` is the decision of the `Convert(top, Expr bottom)` arm of `eval_query` once
+both sides have been evaluated to numbers (`evalQuery_convert` shows the arm is exactly this).
+All theorems hold for every pair of numbers with exact values: any rationals, any
+dimensionalities.
+-/
+namespace Rink.Spec
+open Rink Rink.Eval
+
+def convert (v t : Number) : Outcome Number :=
+  if v.unit == t.unit then Number.div v t else .err .conformance
+
+/-- the conversion arm of the model is `convert` applied to the evaluated sides -/
+theorem evalQuery_convert (ctx : Ctx) (top bottom : Expr) (base : Option Nat) (digits : Digits)
+    (v t : Number) (names : NameMap) (const : Numeric)
+    (hv : evalExpr ctx top = .ok v) (ht : evalExpr ctx bottom = .ok t)
+    (hn : evalUnitName ctx bottom = .ok (names, const)) :
+    evalQuery ctx (.convert top (.expr bottom) base digits) =
+      (do let raw ← convert v t; pure (.conversion raw t names const (base.getD 10) digits)) := by
+  simp only [evalQuery, hv, ht, hn, Outcome.bind_ok, convert]
+  by_cases h : v.unit == t.unit <;> simp [h]
+
+/-- **succeeds exactly when conformable** (and the target is not zero — forced by `x·t = v`). -/
+theorem convert_ok_iff (v t : Number) (q : Rat) (ht : t.value = .rational q) :
+    (∃ x, convert v t = .ok x) ↔ (v.unit = t.unit ∧ q ≠ 0) := by
+  unfold convert Number.div
+  by_cases hu : v.unit = t.unit
+  · by_cases hq : q = 0
+    · simp [hu, ht, hq]
+    · simp [hu, ht, hq, Number.invert, Numeric.div, Numeric.one, Number.mul]
+  · simp [hu]
+
+/-- **exactness**: the reported number `x` satisfies `x · t = v` exactly and is dimensionless. -/
+theorem convert_exact (v t x : Number) (p q : Rat) (hv : v.value = .rational p) (ht : t.value = .rational q)
+    (h : convert v t = .ok x) :
+    ∃ r : Rat, x.value = .rational r ∧ r * q = p ∧ x.unit = [] := by
+  unfold convert Number.div at h
+  by_cases hu : v.unit = t.unit
+  · by_cases hq : q = 0
+    · simp [hu, ht, hq] at h
+    · simp [hu, ht, hq, Number.invert, Numeric.div, Numeric.one, Number.mul, hv, Numeric.mul] at h
+      subst h
+      refine ⟨p * (1 / q), by simp, ?_, ?_⟩
+      · rw [Rat.mul_assoc, Rat.div_def, Rat.one_mul, Rat.mul_comm q⁻¹, Rat.mul_inv_cancel q hq, Rat.mul_one]
+      · simpa using Dim.mul_recip_self t.unit
+  · simp [hu] at h
+
+/-- **converting back**: `x t` *is* `v` (value and dimensionality), so converting it to
+anything — in particular to `v`'s own unit — is converting `v`. -/
+theorem convert_back (v t x : Number) (p q : Rat) (hv : v.value = .rational p) (ht : t.value = .rational q)
+    (h : convert v t = .ok x) : Number.mul x t = v := by
+  obtain ⟨r, hx, hr, hxu⟩ := convert_exact v t x p q hv ht h
+  have hu : v.unit = t.unit := by
+    unfold convert at h
+    by_cases hu : v.unit = t.unit
+    · exact hu
+    · simp [hu] at h
+  cases v with | mk vv vu =>
+  cases x with | mk xv xu =>
+  simp only at hv hx hxu hu
+  subst hv hx hxu hu
+  simp [Number.mul, Numeric.mul, ht, hr]
+
+/-- **refusal**: differing dimensionalities give a conformance error, never a number. -/
+theorem convert_mismatch (v t : Number) (h : v.unit ≠ t.unit) : convert v t = .err .conformance := by
+  simp [convert, h]
+
+/-- a zero target is an error (generic: "Division by zero"), never a number -/
+theorem convert_zero_target (v t : Number) (hu : v.unit = t.unit) (ht : t.value = .rational 0) :
+    convert v t = .err .generic := by
+  simp [convert, hu, Number.div, ht]
+
+/-! non-vacuity: 3 m → foot (381/1250 m) -/
+example : convert ⟨.rational 3, [("m", 1)]⟩ ⟨.rational (381/1250), [("m", 1)]⟩ = .ok ⟨.rational (1250/127), []⟩ := by
+  decide +kernel
+
+end Rink.Spec
